@@ -204,6 +204,8 @@ type indexSpec struct {
 	// multieq queried with a single struct argument (state.Query, state.NodeServiceQuery, ...): the struct's
 	// fields that correspond to `fields`, in the same order
 	argFields []string
+	// kind "opaque": the concrete row type the index yields
+	elemPkg, elemType string
 }
 
 type tableSpec struct {
@@ -282,7 +284,8 @@ func init() {
 		indexes: map[string]indexSpec{"name": {kind: "all"}}})
 	addTable(&tableSpec{name: "peering-trust-bundles", rowPkg: consulMod + "/proto/private/pbpeering", rowType: "PeeringTrustBundle", keyField: "PeerName", lower: true})
 	addTable(&tableSpec{name: "config-entries", ifaceRow: true, ifacePkg: structsPkg, ifaceType: "ConfigEntry", ifaceKeyMeth: []string{"GetKind", "GetName"},
-		keyLower: []bool{true, true}, altPkg: consulMod + "/agent/configentry", altType: "KindName", altFields: []string{"Kind", "Name"}})
+		keyLower: []bool{true, true}, altPkg: consulMod + "/agent/configentry", altType: "KindName", altFields: []string{"Kind", "Name"},
+		indexes: map[string]indexSpec{"intention-source": {kind: "opaque", elemPkg: structsPkg, elemType: "ServiceIntentionsConfigEntry"}}})
 	addTable(&tableSpec{name: "connect-intentions", rowPkg: structsPkg, rowType: "Intention", keyField: "ID", lower: true,
 		indexes: map[string]indexSpec{"source_destination": {kind: "multieq", fields: []string{"SourceNS", "SourceName", "DestinationNS", "DestinationName"}, lowers: []bool{true, true, true, true}}}})
 	addTable(&tableSpec{name: "index", rowPkg: statePkg, rowType: "IndexEntry", keyField: "Key", lower: true})
@@ -1109,6 +1112,31 @@ func modelGet(f *Frame, st *State, e *ast.CallExpr, recv *Term, args []*Term, si
 		c.itPosFn = map[string]string{}
 	}
 	c.itPosFn[it.Op] = posf
+	if ix.kind == "opaque" {
+		// an index the model does not interpret (multi-valued, computed): the iterator yields SOME finite sequence of
+		// allocated objects of the stated row type; nothing is said about which rows (sound for properties of what
+		// the caller does with each yielded row, useless for "every row is found")
+		et := f.eng.lookupType(ix.elemPkg, ix.elemType)
+		if et == nil {
+			f.fail(e, "opaque index: unknown element type %s.%s", ix.elemPkg, ix.elemType)
+		}
+		j := c.bvar("j", SInt)
+		ej := Select(el, j)
+		al := c.heapGet(st, "ALLOC", ArrSort(SInt, SBool))
+		c.assume(st, Forall([]*Term{j}, Implies(And(Ge(j, IntLit(0)), Lt(j, ln)), And(Ne(ej, IntLit(0)), Select(al, ej))), ej))
+		h1 := c.heapGet(st, "IT!len", ArrSort(SInt, SInt))
+		h2 := c.heapGet(st, "IT!elems", ArrSort(SInt, ArrSort(SInt, SInt)))
+		h3 := c.heapGet(st, "IT!pos", ArrSort(SInt, SInt))
+		h4 := c.heapGet(st, "IT!tag", ArrSort(SInt, SInt))
+		c.heapSet(st, "IT!len", Store(h1, it, ln))
+		c.heapSet(st, "IT!elems", Store(h2, it, el))
+		c.heapSet(st, "IT!pos", Store(h3, it, IntLit(0)))
+		c.heapSet(st, "IT!tag", Store(h4, it, c.tagOf(types.NewPointer(et))))
+		c.note("memdb index " + t.name + "/" + "opaque: iterator yields an arbitrary sequence of rows")
+		itT := sig.Results().At(0).Type()
+		iv := App("mkI", SIfc, c.tagOf(itT), it)
+		return []*Term{Ite(failed, IfaceNil, iv), Ite(failed, f.someError(), IfaceNil)}
+	}
 	tb := f.tableArr(st, t)
 	// predicate on a row
 	var pred func(w *State, row *Term, key *Term) *Term
